@@ -1,6 +1,7 @@
 package kdcproxy
 
 import (
+	"encoding/binary"
 	"fmt"
 	krbconfig "github.com/bolkedebruin/gokrb5/v8/config"
 	"github.com/jcmturner/gofork/encoding/asn1"
@@ -119,17 +120,23 @@ func (k *KerberosProxy) forward(realm string, data []byte) (resp []byte, err err
 		return nil, fmt.Errorf("cannot get any kdcs (tcp or udp) for realm %s", realm)
 	}
 
-	// merge the kdcs
-	kdcs := make([]Kdc, tcpCnt+udpCnt)
-	for i := range udpKdcs {
-		kdcs[i] = Kdc{Realm: realm, Host: udpKdcs[i], Proto: "udp"}
+	// merge the kdcs, GetKDCs returns them keyed by preference starting at 1
+	kdcs := make([]Kdc, 0, tcpCnt+udpCnt)
+	for i := 1; i <= udpCnt; i++ {
+		kdcs = append(kdcs, Kdc{Realm: realm, Host: udpKdcs[i], Proto: "udp"})
 	}
-	for i := range tcpKdcs {
-		kdcs[i+udpCnt] = Kdc{Realm: realm, Host: tcpKdcs[i], Proto: "tcp"}
+	for i := 1; i <= tcpCnt; i++ {
+		kdcs = append(kdcs, Kdc{Realm: realm, Host: tcpKdcs[i], Proto: "tcp"})
 	}
 
 	replies := make(chan []byte, len(kdcs))
+	started := 0
 	for i := range kdcs {
+		// if we proxy over UDP the length prefix is removed, so it has to be there
+		if kdcs[i].Proto == "udp" && len(data) < 4 {
+			continue
+		}
+
 		conn, err := net.Dial(kdcs[i].Proto, kdcs[i].Host)
 
 		if err != nil {
@@ -151,17 +158,22 @@ func (k *KerberosProxy) forward(realm string, data []byte) (resp []byte, err err
 		}
 
 		kdcs[i].Conn = conn
+		started++
 		go awaitReply(conn, kdcs[i].Proto == "udp", replies)
 	}
 
-	reply := <-replies
+	// the first reply wins, every started reader reports exactly once
+	var reply []byte
+	for i := 0; i < started && reply == nil; i++ {
+		reply = <-replies
+	}
 
-	// close all the connections and return the first reply
+	// close all the connections, readers still waiting report into the
+	// buffered channel and end
 	for kdc := range kdcs {
 		if kdcs[kdc].Conn != nil {
 			kdcs[kdc].Conn.Close()
 		}
-		<-replies
 	}
 
 	if reply != nil {
@@ -196,15 +208,41 @@ func encode(krb5data []byte) (r []byte, err error) {
 }
 
 func awaitReply(conn net.Conn, isUdp bool, reply chan<- []byte) {
-	resp, err := io.ReadAll(conn)
-	if err != nil {
+	if isUdp {
+		// one datagram is one message, udp will be missing the length prefix so add it
+		buf := make([]byte, 65535)
+		n, err := conn.Read(buf)
+		if err != nil {
+			log.Printf("error reading from kdc due to %s", err)
+			reply <- nil
+			return
+		}
+		resp := make([]byte, 4+n)
+		binary.BigEndian.PutUint32(resp, uint32(n))
+		copy(resp[4:], buf[:n])
+		reply <- resp
+		return
+	}
+
+	// tcp carries one length prefixed message, the kdc may keep the connection open
+	prefix := make([]byte, 4)
+	if _, err := io.ReadFull(conn, prefix); err != nil {
 		log.Printf("error reading from kdc due to %s", err)
 		reply <- nil
 		return
 	}
-	if isUdp {
-		// udp will be missing the length prefix so add it
-		resp = append([]byte{byte(len(resp))}, resp...)
+	size := binary.BigEndian.Uint32(prefix)
+	if size > maxLength {
+		log.Printf("kdc reply of %d bytes is too large", size)
+		reply <- nil
+		return
+	}
+	resp := make([]byte, 4+size)
+	copy(resp, prefix)
+	if _, err := io.ReadFull(conn, resp[4:]); err != nil {
+		log.Printf("error reading from kdc due to %s", err)
+		reply <- nil
+		return
 	}
 	reply <- resp
 }
